@@ -314,7 +314,7 @@ def checkSegment (m : Mon) (kind : Kind) (what : String) (origin : Option Id) (a
       | .key => (keyOrder t0 (routeFuel t0) o).getD []
       | .mouse =>
         match absGeometry t0 f0 o with
-        | .ok g => ((mouseVisits t0 (routeFuel t0) o (absL - g.top) (absC - g.left)).getD []).map (·.1)
+        | .ok g => ((mouseVisits t0 (routeFuel t0) o { type := 0, line := absL - g.top, col := absC - g.left }).getD []).map (·.1)
         | .ub _ => []
   let refOrder := refOrder.filter hasB
   let m := { m with affected := exempt }
